@@ -134,6 +134,16 @@ def check_never_hides(spec, ctx):
     b = bins(s, e, fmt=fmt, one=True)
     qb = bins(qs, qe, fmt=fmt, one=False)
     ctx.true("never_hides", b in qb, {"bin": b, "query": [qs, qe], "iv": [s, e], "fmt": fmt})
+    # the returned set belongs to the caller (intersecting it with another bin set is the obvious use): narrowing it in place
+    # must not narrow what the next call for the same range answers
+    before = set(qb)
+    try:
+        qb &= {b + 1}
+        qb.discard(b)
+    except AttributeError:
+        pass
+    again = bins(qs, qe, fmt=fmt, one=False)
+    ctx.eq("all_bins_answer_unchanged_after_caller_edited_the_earlier_set", sorted(again), sorted(before), extra={"query": [qs, qe], "fmt": fmt})
 
 
 @st.composite
